@@ -91,12 +91,29 @@ Conv ==
   \o (LET Q == SQ({0, 2, 6} \X {0, 1, 3, 9}) IN [j \in DOMAIN Q |->
           W("subraw(raw(\"abcdef\"), " \o ToString(Q[j][1]) \o ", " \o ToString(Q[j][2]) \o ")", VRaw(SubSeq(<<97, 98, 99, 100, 101, 102>>, Q[j][1] + 1, Min(6, Q[j][1] + Q[j][2]))))])
 
+(* 8-bit clean: byte sequences over {NUL, 'A', 0x80, 0xE9, 0xFF}, built byte by byte in the variable Y *)
+ByteSym == <<0, 65, 128, 233, 255>>
+RECURSIVE BWords(_)
+BWords(n) == IF n = 0 THEN {<<>>} ELSE {<<>>} \cup {Append(w, ByteSym[k]) : w \in BWords(n - 1), k \in DOMAIN ByteSym}
+BuildY(bs) == <<Let("Y", Call("raw", <<I(0), I(0)>>))>> \o [j \in DOMAIN bs |-> Do(Mem(V("Y"), "concat", <<Call("raw", <<I(1), I(bs[j])>>)>>))]
+ForBytes(bs) ==
+  LET n == Len(bs) IN
+  << W("Y", VRaw(bs)), W("Y.count()", VInt(n)), W("b64enc(Y)", VStr(B64(bs))), W("b64dec(b64enc(Y))", VRaw(bs)),
+     W("raw(str(Y))", VRaw(bs)), W("strlen(str(Y))", VInt(n)), W("str(Y)", [t |-> "strb", b |-> bs]),
+     W("hash(Y)", [t |-> "u32", hi |-> HashBytes(bs)[1], lo |-> HashBytes(bs)[2]]), W("hash(str(Y))", [t |-> "u32", hi |-> HashBytes(bs)[1], lo |-> HashBytes(bs)[2]]),
+     W("subraw(Y, 0, " \o ToString(n) \o ")", VRaw(bs)), W("subraw(Y, 0)", VRaw(bs)), W("Y == Y", VBool(TRUE)) >>
+  \o (IF n >= 1 THEN << W("subraw(Y, 1)", VRaw(SubSeq(bs, 2, n))), W("subraw(Y, " \o ToString(n - 1) \o ", 1)", VRaw(<<bs[n]>>)),
+                        W("Y.at(" \o ToString(n - 1) \o ")", VInt(bs[n])), W("Y.at(0)", VInt(bs[1])) >> ELSE <<>>)
+  \o << W("Y", VRaw(bs)) >>
+
 VARIABLE p
 Init == p \in {[k |-> "S", w |-> w] : w \in Words(L)} \cup {[k |-> "N", ws |-> ws] : ws \in NumChunks} \cup {[k |-> "C"]}
+              \cup {[k |-> "B", bs |-> bs] : bs \in BWords(L + 1)}
 Next == UNCHANGED p
 Scenario(q) ==
   CASE q.k = "S" -> [prop |-> "C10", key |-> "S", steps |-> <<[op |-> "exec", ctx |-> 0, free |-> TRUE, text |-> "X = " \o LitOf(q.w) \o ";"]>> \o ForString(q.w)]
     [] q.k = "N" -> [prop |-> "C10", key |-> "N", steps |-> <<[op |-> "exec", ctx |-> 0, free |-> TRUE, text |-> "nop;"]>> \o ForNumStr(q.ws)]
+    [] q.k = "B" -> [prop |-> "C10", key |-> "B", steps |-> <<[op |-> "exec", ctx |-> 0, free |-> TRUE, text |-> Render(BuildY(q.bs))]>> \o ForBytes(q.bs)]
     [] q.k = "C" -> [prop |-> "C10", key |-> "C", steps |-> <<[op |-> "exec", ctx |-> 0, free |-> TRUE, text |-> "nop;"]>> \o Conv]
 Emit == PrintT("@@S " \o ToJson(Scenario(p)))
 =============================================================================
